@@ -148,6 +148,20 @@ class MultisetCost(BaseCost):
         return np.array([self.value(self._A[s:e], self.weight, self.param) for s, e in zip(starts, ends)]).reshape(len(starts), -1)
 
 
+from skchange.costs import L2Cost as _L2Cost  # noqa: E402
+
+
+class QuarterL2Cost(_L2Cost):
+    """a user-defined cost that SUBCLASSES a built-in one and changes its value (a quarter of the squared-error cost): code that
+    special-cases built-in costs by isinstance must not treat it as the plain cost"""
+
+    def _evaluate_optim_param(self, starts, ends):
+        return super()._evaluate_optim_param(starts, ends) / 4.0
+
+    def _evaluate_fixed_param(self, starts, ends):
+        return super()._evaluate_fixed_param(starts, ends) / 4.0
+
+
 def find_scale(K: float, d: float):
     """a float `s` with `s * d == K` exactly in float arithmetic, or None"""
     if K == 0:
